@@ -433,6 +433,33 @@ class HarnessError(Exception):
     """Something is wrong in /verif code or the model: never a violation, never exit 0."""
 
 
+def guarded_execute(engine, case, pid):
+    """engine.execute, with an exception that escapes from the code under test (and that the
+    engine did not expect, as it does under injected faults) turned into a violation: every
+    claimed property is about an operation that returns.  An exception raised by /verif code
+    stays what it is (a harness error).  Decided on the innermost traceback frame that belongs
+    to either side; frames of third-party libraries in between are skipped."""
+    import traceback
+
+    try:
+        return engine.execute(case, focus=pid)
+    except (Violation, HarnessError, SimDrift, MemoryError):
+        raise
+    except Exception as exc:  # noqa: BLE001
+        here = os.path.dirname(os.path.abspath(__file__))
+        src = os.path.abspath(SRC)
+        for frame in reversed(traceback.extract_tb(exc.__traceback__)):
+            fname = os.path.abspath(frame.filename)
+            if fname.startswith(here + os.sep):
+                raise
+            if fname.startswith(src + os.sep):
+                where = f"{os.path.relpath(fname, src)}:{frame.lineno} in {frame.name}"
+                raise Violation((pid,), f"{pid}.package-raised",
+                                f"{type(exc).__name__}: {str(exc)[:300]} raised at {where} on a "
+                                f"well-formed input") from None
+        raise
+
+
 class Run:
     """State of one simulated run: event log, probes, oracle bookkeeping."""
 
